@@ -1371,7 +1371,14 @@ func (a *Agent) addCandidate(ctx context.Context, cand Candidate, candidateConn 
 		return err
 	}
 
-	return a.loop.Run(ctx, func(context.Context) {
+	var ctxErr error
+	if err := a.loop.Run(ctx, func(context.Context) {
+		// The gathering cycle may have been canceled (Restart) while this task was queued:
+		// its candidates must not enter the new generation.
+		if ctxErr = ctx.Err(); ctxErr != nil {
+			return
+		}
+
 		set := a.localCandidates[cand.NetworkType()]
 		for _, candidate := range set {
 			if candidate.Equal(cand) {
@@ -1404,7 +1411,11 @@ func (a *Agent) addCandidate(ctx context.Context, cand Candidate, candidateConn 
 		if !cand.filterForLocationTracking() {
 			a.candidateNotifier.EnqueueCandidate(cand)
 		}
-	})
+	}); err != nil {
+		return err
+	}
+
+	return ctxErr
 }
 
 func (a *Agent) setCandidateExtensions(cand Candidate) {
